@@ -35,7 +35,7 @@ ENUM = {
                  ("t_class", "class3"), ("t_long", "full4"), ("t_wide", "wide3"), ("q_quoted", "full3"), ("q_coll", "full3"),
                  ("t_setops", "set3"), ("t_regex", "regex2"), ("t_punct", "punct2")],
 }
-SHELL = {"quick": "q_shell", "thorough": "t_shell"}
+SHELL = {"quick": ["q_shell", "q_shelldq"], "thorough": ["t_shell", "t_shelldq"]}
 RANDOM = {"quick": 40000, "thorough": 400000}
 MC = {"quick": "MC_Fnmatch.cfg", "thorough": "MC_Fnmatch_t.cfg"}
 
@@ -228,9 +228,8 @@ def _random(wd, tier, rep, acc, lock):
 # ---------------------------------------------------------------------------
 # P4c
 # ---------------------------------------------------------------------------
-def _shell(wd, tier, rep, acc, lock, workers):
-    name = SHELL[tier]
-    lines = os.path.join(wd, "shell.lines.ndjson")
+def _shell(wd, name, rep, acc, lock, workers):
+    lines = os.path.join(wd, f"{name}.lines.ndjson")
     r = vlib.tlc("Gen_Fnmatch", f"Gen_Fnmatch_{name}.cfg", workers=workers, timeout=3000, json_out=lines)
     vlib.tlc_must_pass(r, f"generator {name}")
     # split the lines over several harness processes (the shell runner is single-threaded)
@@ -243,7 +242,7 @@ def _shell(wd, tier, rep, acc, lock, workers):
     nproc = 6
     parts = []
     for k in range(nproc):
-        p = os.path.join(wd, f"shell.part{k}.ndjson")
+        p = os.path.join(wd, f"{name}.part{k}.ndjson")
         with open(p, "w") as f:
             f.write(header[0])
             f.writelines(body[k::nproc])
@@ -257,7 +256,7 @@ def _shell(wd, tier, rep, acc, lock, workers):
     t0 = time.time()
     vlib.build_harness(PKG)
     tot = {"patterns": 0, "cases": 0, "skipped_unspecified": 0, "open_patterns_case_only": 0, "shell_runs": 0,
-           "via_var": 0, "via_direct": 0, "mismatches": 0}
+           "via_var": 0, "via_direct": 0, "via_dq": 0, "mismatches": 0}
     by_line = {}
     for x in body:
         d = json.loads(x)
@@ -288,13 +287,16 @@ def _shell(wd, tier, rep, acc, lock, workers):
     with lock:
         acc["states"] += r.distinct
         acc["transitions"] += r.generated
-        acc["shell"] = tot
+        old = acc.setdefault("shell", {})
+        for k, v in tot.items():
+            old[k] = old.get(k, 0) + v
     acc["samples"].append({"shell_case": {"pattern": pattern_text(json.loads(body[len(body) // 2])["c"],
                                                                  json.loads(body[len(body) // 2])["l"]),
                                           "rows": json.loads(body[len(body) // 2])["sh"][:3]}})
-    vlib.log(f"[p4c] {tot['patterns']} patterns, {tot['cases']} (pattern, string) cases through the whole shell "
+    vlib.log(f"[p4c] {name}: {tot['patterns']} patterns, {tot['cases']} (pattern, string) cases through the whole shell "
              f"(4 trims + case each; {tot['open_patterns_case_only']} patterns left open by POSIX: case only; "
-             f"{tot['via_var']} via $p, {tot['via_direct']} written directly) in "
+             f"{tot['via_var']} via $p, {tot['via_direct']} written directly, {tot['via_dq']} in double quotes with "
+             f"inner escapes) in "
              f"{time.time() - t0:.1f}s, {tot['mismatches']} disagree")
 
 
@@ -321,7 +323,7 @@ def run(tier):
             acc["transitions"] += mc.generated
         mcres["mc"] = mc
 
-    jobs = [job_mc, lambda: _shell(wd, tier, rep, acc, lock, workers=4)]
+    jobs = [job_mc] + [lambda n=n: _shell(wd, n, rep, acc, lock, workers=4) for n in SHELL[tier]]
     for item in ENUM[tier]:
         jobs.append(lambda item=item: _enum_one(wd, item[0], item[1], rep, acc, lock, workers=5))
     jobs.insert(3, lambda: _random(wd, tier, rep, acc, lock))
